@@ -271,6 +271,10 @@ func reportDeadlock(me int, mask uint64) {
 func executeRun(s *RunSpec, runIdx int, racePath string) (doneEv, *violEv) {
 	t0 := time.Now() // wall time is reported only; it never feeds a decision
 	curSpec, curRunIdx, deadlockFn = s, runIdx, reportDeadlock
+	unsupportedFn = func() {
+		fmt.Fprintf(os.Stderr, "simulation stuck: the tree under test uses an unbuffered channel between callers (run %d, seed %d); a rendezvous cannot be scheduled statement-granular\n", runIdx, s.Seed)
+		os.Exit(5)
+	}
 	armWatchdog(watchdogLimit, fmt.Sprintf("run %d (seed %d)", runIdx, s.Seed))
 	defer disarmWatchdog()
 	var pre *world
